@@ -1,4 +1,478 @@
+// Hub scenarios: load a typed pre-state into MockStorage through the contract's own storage API,
+// answer queries from canned chain facts, run the real entry point, dump the post-state.
+use basset::hub::{
+    Config, CurrentBatch, ExecuteMsg, InstantiateMsg, Parameters, QueryMsg, State, UnbondHistory, UnbondType,
+};
+use basset_sei_hub::contract::{execute, instantiate, query};
+use basset_sei_hub::state::{
+    all_unbond_history, get_unbond_requests, read_new_owner, store_new_owner, store_unbond_history,
+    store_unbond_wait_list, NewOwnerAddr, CONFIG, CURRENT_BATCH, PARAMETERS, STATE,
+};
+use cosmwasm_std::testing::{mock_env, MockApi, MockStorage};
+use cosmwasm_std::{
+    from_json, to_json_binary, Addr, AllBalanceResponse, AllDelegationsResponse, Api, BalanceResponse, BankQuery,
+    Binary, BondedDenomResponse, Coin, ContractResult, Decimal, Delegation, DelegationResponse, Deps, DepsMut, Empty,
+    Env, MessageInfo, OwnedDeps, Querier, QuerierResult, QuerierWrapper, QueryRequest, StakingQuery, Storage,
+    SystemError, SystemResult, Timestamp, Uint128, WasmQuery,
+};
+use cosmwasm_storage::Bucket;
 use serde_json::{json, Value};
-pub fn run(_v: &Value) -> Value {
-    json!({"error": "hub scenarios not implemented yet"})
+use std::marker::PhantomData;
+
+pub struct Facts {
+    pub balances: Vec<(String, String, Uint128)>,          // (address, denom, amount)
+    pub delegations: Vec<(String, Uint128, String)>,       // (validator, amount, denom)
+    pub validators: Vec<(String, Uint128)>,                // registry answer
+    pub supplies: Vec<(String, Uint128)>,                  // token address -> total supply
+    pub cw20_balances: Vec<(String, Uint128)>,             // token address -> balance of the hub (airdrop)
+    pub hub: String,
+    pub failing: Vec<String>,                              // contract addresses whose smart queries fail
+}
+
+impl Querier for Facts {
+    fn raw_query(&self, bin_request: &[u8]) -> QuerierResult {
+        let request: QueryRequest<Empty> = match from_json(bin_request) {
+            Ok(v) => v,
+            Err(e) => {
+                return SystemResult::Err(SystemError::InvalidRequest {
+                    error: format!("Parsing query request: {}", e),
+                    request: bin_request.into(),
+                })
+            }
+        };
+        match request {
+            QueryRequest::Bank(BankQuery::Balance { address, denom }) => {
+                let amt = self
+                    .balances
+                    .iter()
+                    .find(|b| b.0 == address && b.1 == denom)
+                    .map(|b| b.2)
+                    .unwrap_or_default();
+                SystemResult::Ok(ContractResult::Ok(
+                    to_json_binary(&BalanceResponse { amount: Coin { denom, amount: amt } }).unwrap(),
+                ))
+            }
+            QueryRequest::Bank(BankQuery::AllBalances { address }) => {
+                let amount: Vec<Coin> = self
+                    .balances
+                    .iter()
+                    .filter(|b| b.0 == address)
+                    .map(|b| Coin { denom: b.1.clone(), amount: b.2 })
+                    .collect();
+                SystemResult::Ok(ContractResult::Ok(to_json_binary(&AllBalanceResponse { amount }).unwrap()))
+            }
+            QueryRequest::Staking(StakingQuery::AllDelegations { delegator }) => {
+                let delegations: Vec<Delegation> = if delegator == self.hub {
+                    self.delegations
+                        .iter()
+                        .map(|d| Delegation {
+                            delegator: Addr::unchecked(delegator.clone()),
+                            validator: d.0.clone(),
+                            amount: Coin { denom: d.2.clone(), amount: d.1 },
+                        })
+                        .collect()
+                } else {
+                    vec![]
+                };
+                SystemResult::Ok(ContractResult::Ok(
+                    to_json_binary(&AllDelegationsResponse { delegations }).unwrap(),
+                ))
+            }
+            QueryRequest::Staking(StakingQuery::Delegation { delegator, validator }) => {
+                let d = self.delegations.iter().find(|d| d.0 == validator && delegator == self.hub);
+                let delegation = d.map(|d| cosmwasm_std::FullDelegation {
+                    delegator: Addr::unchecked(delegator.clone()),
+                    validator: d.0.clone(),
+                    amount: Coin { denom: d.2.clone(), amount: d.1 },
+                    can_redelegate: Coin { denom: d.2.clone(), amount: d.1 },
+                    accumulated_rewards: vec![],
+                });
+                SystemResult::Ok(ContractResult::Ok(to_json_binary(&DelegationResponse { delegation }).unwrap()))
+            }
+            QueryRequest::Staking(StakingQuery::BondedDenom {}) => SystemResult::Ok(ContractResult::Ok(
+                to_json_binary(&BondedDenomResponse { denom: "usei".to_string() }).unwrap(),
+            )),
+            QueryRequest::Wasm(WasmQuery::Smart { contract_addr, msg }) => {
+                if self.failing.contains(&contract_addr) {
+                    return SystemResult::Err(SystemError::NoSuchContract { addr: contract_addr });
+                }
+                let v: Value = serde_json::from_slice(msg.as_slice()).unwrap_or(Value::Null);
+                if v.get("token_info").is_some() {
+                    if let Some(s) = self.supplies.iter().find(|s| s.0 == contract_addr) {
+                        let r = json!({"name":"tok","symbol":"TOK","decimals":6,"total_supply": s.1.to_string()});
+                        return SystemResult::Ok(ContractResult::Ok(Binary::from(serde_json::to_vec(&r).unwrap())));
+                    }
+                }
+                if v.get("balance").is_some() {
+                    if let Some(s) = self.cw20_balances.iter().find(|s| s.0 == contract_addr) {
+                        let r = json!({"balance": s.1.to_string()});
+                        return SystemResult::Ok(ContractResult::Ok(Binary::from(serde_json::to_vec(&r).unwrap())));
+                    }
+                }
+                if v.get("get_validators_for_delegation").is_some() {
+                    let r: Vec<Value> = self
+                        .validators
+                        .iter()
+                        .map(|x| json!({"address": x.0, "total_delegated": x.1.to_string()}))
+                        .collect();
+                    return SystemResult::Ok(ContractResult::Ok(Binary::from(serde_json::to_vec(&r).unwrap())));
+                }
+                SystemResult::Err(SystemError::NoSuchContract { addr: contract_addr })
+            }
+            _ => SystemResult::Err(SystemError::UnsupportedRequest { kind: "unsupported".to_string() }),
+        }
+    }
+}
+
+fn s(v: &Value) -> String {
+    v.as_str().unwrap_or("").to_string()
+}
+
+fn u(v: &Value) -> Uint128 {
+    match v {
+        Value::String(x) => Uint128::new(x.parse::<u128>().expect("u128")),
+        Value::Number(n) => Uint128::new(n.as_u64().expect("u64") as u128),
+        Value::Null => Uint128::zero(),
+        _ => panic!("not a number {}", v),
+    }
+}
+
+fn u64_of(v: &Value) -> u64 {
+    match v {
+        Value::String(x) => x.parse::<u64>().expect("u64"),
+        Value::Number(n) => n.as_u64().expect("u64"),
+        Value::Null => 0,
+        _ => panic!("not a u64 {}", v),
+    }
+}
+
+/// Decimal from atomics (string / number of 1e-18 units)
+fn dec(v: &Value) -> Decimal {
+    Decimal::from_atomics(u(v), 18).expect("decimal atomics")
+}
+
+pub fn facts_from(q: &Value, hub: &str) -> Facts {
+    let arr = |k: &str| q.get(k).and_then(|x| x.as_array()).cloned().unwrap_or_default();
+    Facts {
+        hub: hub.to_string(),
+        balances: arr("balances").iter().map(|b| (s(&b["address"]), s(&b["denom"]), u(&b["amount"]))).collect(),
+        delegations: arr("delegations")
+            .iter()
+            .map(|d| (s(&d["validator"]), u(&d["amount"]), d.get("denom").map(s).unwrap_or("usei".to_string())))
+            .collect(),
+        validators: arr("validators").iter().map(|d| (s(&d["address"]), u(&d["total_delegated"]))).collect(),
+        supplies: arr("supplies").iter().map(|d| (s(&d["token"]), u(&d["supply"]))).collect(),
+        cw20_balances: arr("cw20_balances").iter().map(|d| (s(&d["token"]), u(&d["balance"]))).collect(),
+        failing: arr("failing").iter().map(s).collect(),
+    }
+}
+
+fn opt_addr(api: &MockApi, v: &Value) -> Option<cosmwasm_std::CanonicalAddr> {
+    match v {
+        Value::String(x) => Some(api.addr_canonicalize(x).expect("canonicalize")),
+        _ => None,
+    }
+}
+
+fn load_storage(storage: &mut dyn Storage, api: &MockApi, st: &Value) {
+    if let Some(c) = st.get("config") {
+        let cfg = Config {
+            creator: api.addr_canonicalize(&s(&c["creator"])).unwrap(),
+            update_reward_index_addr: api.addr_canonicalize(&s(&c["update_reward_index_addr"])).unwrap(),
+            reward_dispatcher_contract: opt_addr(api, &c["reward_dispatcher_contract"]),
+            validators_registry_contract: opt_addr(api, &c["validators_registry_contract"]),
+            bsei_token_contract: opt_addr(api, &c["bsei_token_contract"]),
+            stsei_token_contract: opt_addr(api, &c["stsei_token_contract"]),
+            airdrop_registry_contract: opt_addr(api, &c["airdrop_registry_contract"]),
+            rewards_contract: opt_addr(api, &c["rewards_contract"]),
+        };
+        CONFIG.save(storage, &cfg).unwrap();
+    }
+    if let Some(x) = st.get("state") {
+        let state = State {
+            bsei_exchange_rate: dec(&x["bsei_exchange_rate"]),
+            stsei_exchange_rate: dec(&x["stsei_exchange_rate"]),
+            total_bond_bsei_amount: u(&x["total_bond_bsei_amount"]),
+            total_bond_stsei_amount: u(&x["total_bond_stsei_amount"]),
+            last_index_modification: u64_of(&x["last_index_modification"]),
+            prev_hub_balance: u(&x["prev_hub_balance"]),
+            last_unbonded_time: u64_of(&x["last_unbonded_time"]),
+            last_processed_batch: u64_of(&x["last_processed_batch"]),
+        };
+        STATE.save(storage, &state).unwrap();
+    }
+    if let Some(x) = st.get("params") {
+        let p = Parameters {
+            epoch_period: u64_of(&x["epoch_period"]),
+            underlying_coin_denom: s(&x["underlying_coin_denom"]),
+            unbonding_period: u64_of(&x["unbonding_period"]),
+            peg_recovery_fee: dec(&x["peg_recovery_fee"]),
+            er_threshold: dec(&x["er_threshold"]),
+            reward_denom: s(&x["reward_denom"]),
+            paused: x.get("paused").and_then(|b| b.as_bool()),
+        };
+        PARAMETERS.save(storage, &p).unwrap();
+    }
+    if let Some(x) = st.get("current_batch") {
+        let b = CurrentBatch {
+            id: u64_of(&x["id"]),
+            requested_bsei_with_fee: u(&x["requested_bsei_with_fee"]),
+            requested_stsei: u(&x["requested_stsei"]),
+        };
+        CURRENT_BATCH.save(storage, &b).unwrap();
+    }
+    if let Some(Value::String(o)) = st.get("new_owner") {
+        store_new_owner(storage, &NewOwnerAddr { new_owner_addr: api.addr_canonicalize(o).unwrap() }).unwrap();
+    }
+    if let Some(Value::Array(hs)) = st.get("histories") {
+        for h in hs {
+            let hist = UnbondHistory {
+                batch_id: u64_of(&h["batch_id"]),
+                time: u64_of(&h["time"]),
+                bsei_amount: u(&h["bsei_amount"]),
+                bsei_applied_exchange_rate: dec(&h["bsei_applied_exchange_rate"]),
+                bsei_withdraw_rate: dec(&h["bsei_withdraw_rate"]),
+                stsei_amount: u(&h["stsei_amount"]),
+                stsei_applied_exchange_rate: dec(&h["stsei_applied_exchange_rate"]),
+                stsei_withdraw_rate: dec(&h["stsei_withdraw_rate"]),
+                released: h["released"].as_bool().unwrap_or(false),
+            };
+            store_unbond_history(storage, hist.batch_id, hist).unwrap();
+        }
+    }
+    if let Some(Value::Array(ws)) = st.get("waits") {
+        for w in ws {
+            let b = u(&w["bsei"]);
+            let st_ = u(&w["stsei"]);
+            // the entry must exist even when both amounts are zero
+            store_unbond_wait_list(storage, u64_of(&w["batch"]), s(&w["addr"]), b, UnbondType::BSei).unwrap();
+            store_unbond_wait_list(storage, u64_of(&w["batch"]), s(&w["addr"]), st_, UnbondType::StSei).unwrap();
+        }
+    }
+    if let Some(Value::Array(ws)) = st.get("old_waits") {
+        let mut bucket: Bucket<Uint128> = Bucket::multilevel(storage, &[b"wait"]);
+        for w in ws {
+            bucket.save(s(&w["key"]).as_bytes(), &u(&w["amount"])).unwrap();
+        }
+    }
+}
+
+fn atomics(d: Decimal) -> String {
+    d.atomics().to_string()
+}
+
+fn dump_storage(storage: &dyn Storage, api: &MockApi, addrs: &[String]) -> Value {
+    let mut out = serde_json::Map::new();
+    if let Ok(c) = CONFIG.load(storage) {
+        let h = |x: &Option<cosmwasm_std::CanonicalAddr>| match x {
+            Some(a) => Value::String(api.addr_humanize(a).unwrap().to_string()),
+            None => Value::Null,
+        };
+        out.insert(
+            "config".into(),
+            json!({"creator": api.addr_humanize(&c.creator).unwrap().to_string(),
+               "update_reward_index_addr": api.addr_humanize(&c.update_reward_index_addr).unwrap().to_string(),
+               "reward_dispatcher_contract": h(&c.reward_dispatcher_contract),
+               "validators_registry_contract": h(&c.validators_registry_contract),
+               "bsei_token_contract": h(&c.bsei_token_contract),
+               "stsei_token_contract": h(&c.stsei_token_contract),
+               "airdrop_registry_contract": h(&c.airdrop_registry_contract),
+               "rewards_contract": h(&c.rewards_contract)}),
+        );
+    }
+    if let Ok(x) = STATE.load(storage) {
+        out.insert(
+            "state".into(),
+            json!({"bsei_exchange_rate": atomics(x.bsei_exchange_rate), "stsei_exchange_rate": atomics(x.stsei_exchange_rate),
+               "total_bond_bsei_amount": x.total_bond_bsei_amount.to_string(),
+               "total_bond_stsei_amount": x.total_bond_stsei_amount.to_string(),
+               "last_index_modification": x.last_index_modification, "prev_hub_balance": x.prev_hub_balance.to_string(),
+               "last_unbonded_time": x.last_unbonded_time, "last_processed_batch": x.last_processed_batch}),
+        );
+    }
+    if let Ok(x) = PARAMETERS.load(storage) {
+        out.insert(
+            "params".into(),
+            json!({"epoch_period": x.epoch_period, "underlying_coin_denom": x.underlying_coin_denom,
+               "unbonding_period": x.unbonding_period, "peg_recovery_fee": atomics(x.peg_recovery_fee),
+               "er_threshold": atomics(x.er_threshold), "reward_denom": x.reward_denom, "paused": x.paused}),
+        );
+    }
+    if let Ok(x) = CURRENT_BATCH.load(storage) {
+        out.insert(
+            "current_batch".into(),
+            json!({"id": x.id, "requested_bsei_with_fee": x.requested_bsei_with_fee.to_string(),
+               "requested_stsei": x.requested_stsei.to_string()}),
+        );
+    }
+    if let Ok(o) = read_new_owner(storage) {
+        out.insert("new_owner".into(), Value::String(api.addr_humanize(&o.new_owner_addr).unwrap().to_string()));
+    }
+    if let Ok(hs) = all_unbond_history(storage, None, Some(100)) {
+        let v: Vec<Value> = hs
+            .iter()
+            .map(|h| {
+                json!({"batch_id": h.batch_id, "time": h.time, "bsei_amount": h.bsei_amount.to_string(),
+                "bsei_applied_exchange_rate": atomics(h.bsei_applied_exchange_rate),
+                "bsei_withdraw_rate": atomics(h.bsei_withdraw_rate), "stsei_amount": h.stsei_amount.to_string(),
+                "stsei_applied_exchange_rate": atomics(h.stsei_applied_exchange_rate),
+                "stsei_withdraw_rate": atomics(h.stsei_withdraw_rate), "released": h.released})
+            })
+            .collect();
+        out.insert("histories".into(), Value::Array(v));
+    }
+    let mut waits = vec![];
+    for a in addrs {
+        if let Ok(reqs) = get_unbond_requests(storage, a.clone()) {
+            for (b, bs, ss) in reqs {
+                waits.push(json!({"addr": a, "batch": b, "bsei": bs.to_string(), "stsei": ss.to_string()}));
+            }
+        }
+    }
+    out.insert("waits".into(), Value::Array(waits));
+    Value::Object(out)
+}
+
+fn env_from(v: &Value, hub: &str) -> Env {
+    let mut env = mock_env();
+    env.block.time = Timestamp::from_seconds(u64_of(&v["time"]));
+    if let Some(h) = v.get("height") {
+        env.block.height = u64_of(h);
+    }
+    env.contract.address = Addr::unchecked(hub);
+    env
+}
+
+fn info_from(v: &Value) -> MessageInfo {
+    let funds: Vec<Coin> = v
+        .get("funds")
+        .and_then(|x| x.as_array())
+        .cloned()
+        .unwrap_or_default()
+        .iter()
+        .map(|c| Coin { denom: s(&c["denom"]), amount: u(&c["amount"]) })
+        .collect();
+    MessageInfo { sender: Addr::unchecked(s(&v["sender"])), funds }
+}
+
+pub fn response_json(r: &cosmwasm_std::Response) -> Value {
+    // messages with their inner JSON payload decoded
+    let mut v = serde_json::to_value(r).unwrap();
+    fn walk(x: &mut Value) {
+        match x {
+            Value::Object(m) => {
+                if let Some(Value::String(b64)) = m.get("msg").cloned() {
+                    if let Ok(bin) = Binary::from_base64(&b64) {
+                        if let Ok(inner) = serde_json::from_slice::<Value>(bin.as_slice()) {
+                            m.insert("msg".into(), inner);
+                        }
+                    }
+                }
+                for (_, vv) in m.iter_mut() {
+                    walk(vv);
+                }
+            }
+            Value::Array(a) => {
+                for vv in a.iter_mut() {
+                    walk(vv);
+                }
+            }
+            _ => {}
+        }
+    }
+    walk(&mut v);
+    v
+}
+
+pub fn run(v: &Value) -> Value {
+    let hub = v["env"].get("contract").map(s).unwrap_or("hub_contract".to_string());
+    let facts = facts_from(&v["querier"], &hub);
+    let mut deps: OwnedDeps<MockStorage, MockApi, Facts, Empty> =
+        OwnedDeps { storage: MockStorage::default(), api: MockApi::default(), querier: facts, custom_query_type: PhantomData };
+    let api = MockApi::default();
+    load_storage(&mut deps.storage, &api, &v["storage"]);
+    let env = env_from(&v["env"], &hub);
+    let addrs: Vec<String> = v.get("dump_addrs").and_then(|x| x.as_array()).cloned().unwrap_or_default().iter().map(s).collect();
+    let mut out = serde_json::Map::new();
+    // state as every handler will see it after its slashing synchronisation
+    if v.get("storage").and_then(|x| x.get("state")).is_some() {
+        if let Ok(b) = query(deps.as_ref(), env.clone(), QueryMsg::State {}) {
+            let st: Value = serde_json::from_slice(b.as_slice()).unwrap();
+            out.insert("synced_state".into(), st);
+        }
+    }
+    // a sequence of steps; each step = {entry, info, msg, env?}
+    let steps: Vec<Value> = match v.get("steps") {
+        Some(Value::Array(a)) => a.clone(),
+        _ => vec![json!({"entry": v["entry"], "info": v["info"], "msg": v["msg"]})],
+    };
+    let mut results = vec![];
+    for step in steps.iter() {
+        let entry = step["entry"].as_str().unwrap_or("execute");
+        let env2 = if step.get("env").is_some() { env_from(&step["env"], &hub) } else { env.clone() };
+        let r: Value = match entry {
+            "instantiate" => {
+                let m: Result<InstantiateMsg, _> = serde_json::from_value(step["msg"].clone());
+                match m {
+                    Err(e) => json!({"msg_error": e.to_string()}),
+                    Ok(m) => match instantiate(deps.as_mut(), env2, info_from(&step["info"]), m) {
+                        Ok(resp) => json!({"ok": response_json(&resp)}),
+                        Err(e) => json!({"err": e.to_string()}),
+                    },
+                }
+            }
+            "execute" => {
+                let m: Result<ExecuteMsg, _> = serde_json::from_value(step["msg"].clone());
+                match m {
+                    Err(e) => json!({"msg_error": e.to_string()}),
+                    Ok(m) => {
+                        // transactional semantics: a failing execute leaves storage untouched
+                        let snapshot: Vec<(Vec<u8>, Vec<u8>)> =
+                            deps.storage.range(None, None, cosmwasm_std::Order::Ascending).collect();
+                        let res = std::panic::catch_unwind(std::panic::AssertUnwindSafe(|| {
+                            execute(deps.as_mut(), env2, info_from(&step["info"]), m)
+                        }));
+                        match res {
+                            Ok(Ok(resp)) => json!({"ok": response_json(&resp)}),
+                            other => {
+                                let keys: Vec<Vec<u8>> = deps
+                                    .storage
+                                    .range(None, None, cosmwasm_std::Order::Ascending)
+                                    .map(|(k, _)| k)
+                                    .collect();
+                                for k in keys {
+                                    deps.storage.remove(&k);
+                                }
+                                for (k, val) in snapshot {
+                                    deps.storage.set(&k, &val);
+                                }
+                                match other {
+                                    Ok(Err(e)) => json!({"err": e.to_string()}),
+                                    Err(_) => json!({"panic": "panic in execute"}),
+                                    _ => unreachable!(),
+                                }
+                            }
+                        }
+                    }
+                }
+            }
+            "query" => {
+                let m: Result<QueryMsg, _> = serde_json::from_value(step["msg"].clone());
+                match m {
+                    Err(e) => json!({"msg_error": e.to_string()}),
+                    Ok(m) => match query(deps.as_ref(), env2, m) {
+                        Ok(b) => json!({"ok": serde_json::from_slice::<Value>(b.as_slice()).unwrap_or(Value::Null)}),
+                        Err(e) => json!({"err": e.to_string()}),
+                    },
+                }
+            }
+            _ => json!({"error": "unknown entry"}),
+        };
+        results.push(r);
+    }
+    out.insert("results".into(), Value::Array(results.clone()));
+    out.insert("result".into(), results.last().cloned().unwrap_or(Value::Null));
+    out.insert("storage".into(), dump_storage(&deps.storage, &api, &addrs));
+    let _ = (QuerierWrapper::<Empty>::new(&deps.querier), DepsMut::<Empty>::branch, Deps::<Empty>::clone);
+    Value::Object(out)
 }
